@@ -9,12 +9,14 @@ pub fn run(rep: &Report) -> bool {
         "C01" => props::c01::run(rep),
         "C03" => props::c03::run(rep),
         "C04" => props::c04::run(rep),
+        "C05" => props::c05::run(rep),
         "C10" => props::c10::run(rep),
         "C13" => props::c13::run(rep),
         "C14" => props::c14::run(rep),
         "C16" => props::c16::run(rep),
         "C17" => props::c17::run(rep),
         "C19" => props::c19::run(rep),
+        "C20" => props::c20::run(rep),
         _ => return false,
     }
     true
@@ -55,12 +57,14 @@ pub fn replay(rep: &Report, path: &str) -> i32 {
         "C01" => props::c01::replay(rep, &stage, &j),
         "C03" => props::c03::replay(rep, &stage, &j),
         "C04" => props::c04::replay(rep, &stage, &j),
+        "C05" => props::c05::replay(rep, &stage, &j),
         "C10" => props::c10::replay(rep, &stage, &j),
         "C13" => props::c13::replay(rep, &stage, &j),
         "C14" => props::c14::replay(rep, &stage, &j),
         "C16" => props::c16::replay(rep, &stage, &j),
         "C17" => props::c17::replay(rep, &stage, &j),
         "C19" => props::c19::replay(rep, &stage, &j),
+        "C20" => props::c20::replay(rep, &stage, &j),
         _ => {
             eprintln!("no replay handler for {}/{}", rep.prop, stage);
             2
@@ -75,6 +79,7 @@ pub fn child_dispatch(kind: &str, payload: &J) -> Option<J> {
     }
     let prop = kind.split('-').next().unwrap_or("");
     match prop {
+        "c05" => props::c05::child(kind, payload),
         "c16" => props::c16::child(kind, payload),
         "c17" => props::c17::child(kind, payload),
         "c19" => props::c19::child(kind, payload),
